@@ -136,9 +136,25 @@ def run(ctx):
                     rp, sp = PROPS[(cells + variant) % len(PROPS)]
                     r_scale = rng.choice([0, 1]) if kind in ("analog", "complex") else 0
                     rrows = world.mk_values(tag, rng.choice([0, 1, 3]), ncols, kind == "digital")
+                    junction = {"last": None}
+
                     def tspec(m, n, lo):
                         if m == "I":
-                            st = sorted(rng.randint(lo, lo + 9) for _ in range(n))
+                            if junction["last"] is not None and rng.random() < 0.6:
+                                # continue at (or next to) the previous last timestamp, in either direction, plateaus allowed:
+                                # the cases in which only the whole concatenation decides monotonicity
+                                cur = junction["last"] + rng.choice([0, 0, 1, -1, 2])
+                                d = rng.choice([1, 1, -1])
+                                st = []
+                                for _k in range(n):
+                                    st.append(cur)
+                                    cur += d * rng.choice([0, 1, 1, 3])
+                            else:
+                                st = sorted(rng.randint(lo, lo + 9) for _ in range(n))
+                                if rng.random() < 0.25:
+                                    st = st[::-1]
+                            if st:
+                                junction["last"] = st[-1]
                             return ("I", st)
                         return timing_specs()[m]
                     rname = world.fresh()
@@ -159,7 +175,8 @@ def run(ctx):
                         up = rng.random() < 0.85
                         sspec = tspec(sm, len(srows), lo if up else -20)
                         lo += 10
-                        props = dict(sp) if i == 0 else {**sp, "z": str(i), "a": "late"}
+                        # later sources carry the same keys with other values: the earliest source must win
+                        props = dict(sp) if i == 0 else {**{k: v + f"#{i}" for k, v in sp.items()}, "z": str(i), "a": "late"}
                         if H.make_wfm(world, sn, kind, st, srows, sc, sspec, sscale, props) is None:
                             break
                         snames.append(sn); scales.append(sscale)
@@ -182,6 +199,41 @@ def run(ctx):
                     ctx.case((kind, rm, sms, variant))
                     ctx.count("cell", f"{kind}:{rm}<-{'+'.join(sms)}")
                     ctx.count("outcome", "ok" if rec["err"] is None else rec["err"][1])
+    # irregular junction sweep: every small receiver x source(s) timestamp pattern — equal junctions, plateaus, reversals
+    RECV = [[0, 1], [1, 0], [1, 1], [1], []]
+    SRC = [[1, 0], [1, 2], [1, 1], [0, 1], [2, 1], [1], [], [1, 1, 0], [0, 0, 1], [1, 1, 2]]
+    combos = [(r, [a]) for r in RECV for a in SRC] + [(r, [a, b]) for r in RECV for a in SRC for b in SRC]
+    if ctx.quick:
+        combos = combos[:len(RECV) * len(SRC)] + rng.sample(combos[len(RECV) * len(SRC):], 150)
+    for kind in ("analog", "digital"):
+        tag = H.SUPPORTED[kind][0] if kind != "digital" else 6
+        for rst, slist in combos:
+            world.objs = {}
+            rname = world.fresh()
+            recv = H.make_wfm(world, rname, kind, tag, world.mk_values(tag, len(rst), 1, kind == "digital"), 1, ("I", rst), 0, {"k": "r"},
+                              extra_cap=rng.choice([0, 6]))
+            if recv is None:
+                continue
+            snames = []
+            for i, sst in enumerate(slist):
+                sn = world.fresh()
+                if H.make_wfm(world, sn, kind, tag, world.mk_values(tag, len(sst), 1, kind == "digital"), 1, ("I", sst), 0,
+                              {"k": f"s{i}", "n": f"v{i}"}) is None:
+                    break
+                snames.append(sn)
+            if len(snames) != len(slist):
+                continue
+            before = world.snap(kind, recv)
+            ssnaps = [world.snap(kind, world.objs[n][1]) for n in snames]
+            real = [world.objs[n][1] for n in snames]
+            world.run(f"wappw {rname} {','.join(snames)}", lambda: recv.append(real if len(real) > 1 or rng.random() < 0.5 else real[0]), rname, kind)
+            rec = world.records[-1]
+            if rec["err"] is None:
+                world.expect[-1] = "ok " + rec["after"][rname] + " warn=" + ("_" if not rec["warn"] else ",".join(rec["warn"]))
+            judge(kind, rname, snames, rec, before, ssnaps, "I", ["I"] * len(slist), [0] * len(slist), 0)
+            cells += 1
+            ctx.case((kind, "junction", tuple(rst), tuple(map(tuple, slist))))
+            ctx.count("junction-outcome", "ok" if rec["err"] is None else rec["err"][1])
     ctx.exhaustive = True
     ctx.extra["matrix_cells"] = cells
     # appending an array requires timestamps exactly when the receiver is IRREGULAR
@@ -207,8 +259,17 @@ def run(ctx):
                 ctx.case(("arr", kind, rm, with_ts))
     # seeded repeated appends
     w = {"appa": 3, "appw": 8, "load": 1, "setcount": 1, "setcap": 1, "settiming": 2, "write": 0, "get": 0, "pickle": 0, "bad": 0}
+    mark = len(world.records)
     for i in range(60 if ctx.quick else 1500):
         H.gen_history(world, kinds[i % 4], rng.randint(2, 10), weights=w, irregular_bias=0.4)
+    for r in world.records[mark:]:
+        r["from_history"] = True
+    for r in world.records:
+        t = r["line"].split()
+        if t[0] == "wappw" and not r.get("malformed") and "idx" in r and r.get("from_history"):
+            names = t[2].split(",")
+            if t[1] in r["before"] and all(n in r["before"] for n in names):
+                judge(r["kind"], t[1], names, r, r["before"][t[1]], [r["before"][n] for n in names], None, None, None, None)
     for r in world.records[-2000:]:
         ctx.case(r["line"])
     ctx.extra["model_lines_compared"] = H.compare_with_model(ctx, world)
